@@ -73,6 +73,11 @@ def host_tree(root, huge=False):
     os.makedirs(os.path.join(root, "mid"))
     for i in range(60):
         w("mid/%s" % (("m%03d" % i) + "z" * (i % 50)), b"m" * (i % 7))
+    # 20 distinct owners / groups: more than one quota-tree data block holds (14 entries per 1 KiB block)
+    os.makedirs(os.path.join(root, "owners"))
+    for i in range(20):
+        q = w("owners/u%02d" % i, b"o" * (37 * i))
+        os.chown(q, 3000 + i, 4000 + i)
     os.symlink("hello.txt", os.path.join(root, "fastlink"))
     os.symlink("lin/sub/subsub/" + "a" * 80, os.path.join(root, "slowlink"))
     os.link(os.path.join(root, "hello.txt"), os.path.join(root, "hardlink1"))
